@@ -62,6 +62,9 @@ def run(d, ids):
     rc, out = sh(["git", "-C", "/repo", "apply", os.path.join(os.path.abspath(d), "patch.diff")])
     assert rc == 0, out
     res = {}
+    # the evidence files must come from runs on the unchanged tree: keep them and put them back afterwards
+    evdir = "/verif/evidence"
+    saved = {f: open(os.path.join(evdir, f), "rb").read() for f in os.listdir(evdir)} if os.path.isdir(evdir) else {}
     try:
         for pid in ids:
             rc, out = sh(["./check", pid, "quick"], cwd="/verif", timeout=3000)
@@ -79,6 +82,8 @@ def run(d, ids):
     finally:
         sh(["git", "-C", "/repo", "checkout", "--", "."])
         sh(["git", "-C", "/repo", "clean", "-fdq"])
+        for f, data in saved.items():
+            open(os.path.join(evdir, f), "wb").write(data)
     return res
 
 
